@@ -898,6 +898,10 @@ class PolygonalROI(VertexROIBase):
         result = points_inside_poly(x, y, np.asarray(self.vx), np.asarray(self.vy))
         return result
 
+    def _closed(self):
+        """Whether the start vertex is explicitly repeated at the end."""
+        return len(self.vx) > 1 and self.vx[-1] == self.vx[0] and self.vy[-1] == self.vy[0]
+
     # There are several possible definitions of the centre; `mean()` is
     # easiest to calculate, but not robust against adding vertices.
     def mean(self):
@@ -906,7 +910,7 @@ class PolygonalROI(VertexROIBase):
         if not self.defined():
             raise UndefinedROI
         # Do not include starting vertex twice!
-        if self.vx[-1] == self.vx[0] and self.vy[:-1] == self.vy[0]:
+        if self._closed():
             return np.mean(self.vx[:-1]), np.mean(self.vy[:-1])
         else:
             return np.mean(self.vx), np.mean(self.vy)
@@ -931,7 +935,7 @@ class PolygonalROI(VertexROIBase):
         # Shoelace formula; in case where the start vertex is not already duplicated
         # at the end, final term added manually to avoid an array copy.
         area_main = np.dot(x_[:-1], y_[1:]) - np.dot(y_[:-1], x_[1:])
-        if not (self.vx[-1] == self.vx[0] and self.vy[:-1] == self.vy[0]):
+        if not self._closed():
             area_main += x_[-1] * y_[0] - y_[-1] * x_[0]
         if signed:
             return 0.5 * area_main
@@ -952,7 +956,7 @@ class PolygonalROI(VertexROIBase):
         else:
             x0, y0 = self.mean()
 
-        if self.vx[-1] == self.vx[0] and self.vy[:-1] == self.vy[0]:
+        if self._closed():
             x_ = self.vx[:-1] - x0
             y_ = self.vy[:-1] - y0
         else:
